@@ -245,6 +245,16 @@ Fixpoint find_ptr_t (St : gmap positive bytes) (x : tree) (q : positive) {struct
            end) cs 0%nat
   end.
 
+(** * hypotheses on the tree the search runs over *)
+
+(** every member of an object node has a name ([current_child->string] is dereferenced without a test) *)
+Definition members_named (x : tree) : Prop :=
+  forall n, n ∈ nodes_t x -> Z.land (rd_type (tdata n)) 255 = c_cJSON_Object ->
+    forall c, c ∈ tchildren n -> rd_key (tdata c) <> None.
+(** no node has more than ULONG_MAX children (the test [child_index > ULONG_MAX] never fires) *)
+Definition small_nodes (x : tree) : Prop :=
+  forall n, n ∈ nodes_t x -> (Z.of_nat (length (tchildren n)) <= ULONG_MAX)%Z.
+
 (** * the post-condition of one call *)
 Record FPost (g g' : heap) (res : ptr) (v : option bytes) : Prop := mkFPost {
   fp_lnk : h_lnk g' = h_lnk g;                         (* the trees are not written *)
